@@ -62,8 +62,21 @@ def dispatch(clauses, e):
     return None
 
 
-def tight(f, catch_all):
-    return (f["try"] and f["catches"] == catch_all) or (f["calls"] == 0 and f["throws"] == 0 and f["news"] == 0)
+def ptr_tight(f, codes):
+    """pointer-returning entry point: handlers catch every class, each notifies the documented code of its own
+    class and returns the null pointer (mirror of PPLV.CIface.ptrTight)."""
+    for c in f["catches"]:
+        own = "unknown" if c["exc"] == "ellipsis" else c["exc"]
+        if own not in DOCUMENTED:
+            return False
+        if not (c["wf"] and c["ret"] == "lit:0" and c["notifyBeforeRet"] and codes.get(c["notify"]) == DOC_VALUES[DOCUMENTED[own]]):
+            return False
+    return all(dispatch(f["catches"], e) is not None for e in ANCESTORS)
+
+
+def tight(f, catch_all, codes):
+    return (f["try"] and f["catches"] == catch_all) or (f["calls"] == 0 and f["throws"] == 0 and f["news"] == 0) \
+        or (not f["retInt"] and f["try"] and ptr_tight(f, codes))
 
 
 def diagnose(tab):
@@ -93,7 +106,7 @@ def diagnose(tab):
                         {"class": e, "clause": c}))
     # tightness (full statement: no retInt hypothesis)
     for f in E:
-        if not tight(f, ca):
+        if not tight(f, ca, codes):
             tags = ["no_try_block" if not f["try"] else "handlers_differ_from_CATCH_ALL",
                     "returns_int" if f["retInt"] else "no_try_block_non_int_return" if not f["try"] else "non_int_return"]
             out.append(("all_tight", f["name"], tags,
@@ -298,6 +311,9 @@ class Judge:
                              name, tags, args, line)
         if ret >= 0:
             return
+        fe = [x for x in self.tab["entries"] if x["name"] == name]
+        if fe and not fe[0]["retInt"] and ret == -1 and hc == 1 and hcode == -2:
+            return          # pointer-returning entry point: null pointer after one handler call with PPL_ERROR_OUT_OF_MEMORY
         if not (ret == -2 and hc == 1 and hcode == -2):
             return self.viol("memory exhaustion inside %s: returned %d, handler called %d time(s) with %d; documented PPL_ERROR_OUT_OF_MEMORY (-2) after one handler call"
                              % (name, ret, hc, hcode), name, ["oom_wrong_report"], args, line)
@@ -422,10 +438,46 @@ def translate(ctx, prove=True):
             tp = time.time()
             broken = ctx.prove([PROPS])
             ctx.cov["prove_s"] = round(time.time() - tp, 1)
+            if not broken:
+                verdicts, bad = audit_verdicts(ctx)
+                ctx.cov["full_strength_verdicts"] = verdicts
+                broken += bad
             if ctx.tier == "thorough":
                 broken += ctx.leanchecker([PROPS])
         inc_path, inc_hash = c20_harness.write(tab, os.path.join(BUILD, "c20gen"))
     return tab, broken, inc_path, inc_hash
+
+
+VERDICTS = {"all_tight_verdict": "all_tight", "silent_errors_verdict": "silent_errors",
+            "timeout_disarmed_verdict": "timeout_disarmed"}
+
+
+def audit_verdicts(ctx):
+    """The three clauses the unchanged tree violates are `Verdict P` definitions that check on either side of the
+    repair; ask Lean which constructor each one is, and audit its axioms."""
+    audit = os.path.join(BUILD, "audit_c20v_%d.lean" % os.getpid())
+    with open(audit, "w") as f:
+        f.write("import %s\n" % PROPS)
+        for v in VERDICTS:
+            f.write("#print axioms C20.%s\n#eval IO.println (\"verdict %s \" ++ C20.%s.name)\n" % (v, v, v))
+    r = sh(["lake", "env", "lean", audit], cwd=LEAN)
+    os.unlink(audit)
+    out = r.stdout.replace("\n", " ")
+    res, bad = {}, []
+    for v in VERDICTS:
+        ctx.obligations += 1
+        ctx.obligation_names.append("C20." + v)
+        m = re.search(r"verdict %s (holds|fails)" % v, out)
+        ax = re.search(r"'C20\.%s' depends on axioms: \[([^\]]*)\]" % v, out)
+        axs = set(a.strip() for a in ax.group(1).split(",")) if ax else (set() if "'C20.%s' does not depend" % v in out else None)
+        if not m or axs is None:
+            bad.append("no verdict for C20." + v)
+        elif not axs <= common.ALLOWED_AXIOMS:
+            bad.append("C20.%s uses %s" % (v, sorted(axs - common.ALLOWED_AXIOMS)))
+        else:
+            ctx.discharged += 1
+            res[VERDICTS[v]] = m.group(1)
+    return res, bad
 
 
 def harness_binary(ctx, inc_path, inc_hash):
@@ -527,6 +579,13 @@ def run(ctx):
             demo.append((thm, site))
             static_reported[kind] = static_reported.get(kind, 0) + 1
 
+    # ---- Lean's verdict on the three finding-tied clauses must agree with the table search
+    for clause, v in (ctx.cov.get("full_strength_verdicts") or {}).items():
+        py_fails = clause in diag_theorems
+        if (v == "fails") != py_fails:
+            ctx.violation("Lean proves that C20.%s %s on the regenerated table but the table search %s a failing entry point"
+                          % (clause, v, "found" if py_fails else "did not find"), {"theorem": "C20." + clause, "repo": REPO}, found_input=False)
+
     # ---- a theorem that no longer checks although python finds nothing wrong
     if broken:
         src = open(os.path.join(LEAN, "PPLV", "Props", "C20.lean")).read().splitlines()
@@ -537,8 +596,8 @@ def run(ctx):
             if t:
                 bad.add(t)
         ctx.cov["broken_obligations"] = sorted(bad) or broken[:3]
-        repaired = [t for t in bad if t.endswith("_fails")]
-        others = [t for t in bad if not t.endswith("_fails")]
+        repaired = []
+        others = sorted(bad)
         explained = set()
         for t in others:
             base = t.replace("_partial", "").replace("'", "")
